@@ -124,3 +124,136 @@ fn c05_lookup_single_plain() {
 fn c05_lookup_single_wildcard() {
     lookup_single(true);
 }
+
+// ---- C06: renewal exactly when due ---------------------------------------------------------------
+// Environment: storage::{certificate_files_exists, get_certificate} are cut to the file model of
+// crate::verif_env (files present or not; certificate = model encoding parsed by the openssl model:
+// notAfter - now as (days, secs), SAN list); rand model: gen_range returns ANY value of the range.
+fn put_cert(days: i32, secs: i32, san: &[(u8, u8)]) {
+    let e = env();
+    e.cert_file[0] = b'C';
+    e.cert_file[1] = 1;
+    let d = days.to_le_bytes();
+    let s = secs.to_le_bytes();
+    let mut i = 0;
+    while i < 4 {
+        e.cert_file[2 + i] = d[i];
+        e.cert_file[6 + i] = s[i];
+        i += 1;
+    }
+    e.cert_file[10] = san.len() as u8;
+    let mut i = 0;
+    while i < san.len() {
+        e.cert_file[11 + 2 * i] = san[i].0;
+        e.cert_file[12 + 2 * i] = san[i].1;
+        i += 1;
+    }
+    e.cert_file_len = 11 + 2 * san.len();
+}
+
+fn any_diff() -> (i32, i32, u128) {
+    let days: i32 = kani::any();
+    let secs: i32 = kani::any();
+    kani::assume(secs > -86_400 && secs < 86_400);
+    kani::assume((days >= 0 && secs >= 0) || (days <= 0 && secs <= 0));
+    let exact: i128 = days as i128 * 86_400 + secs as i128;
+    (days, secs, if exact > 0 { exact as u128 } else { 0 })
+}
+
+// renew_in == max(0, E - renew_delay) - J with J in [0, random_early_renew) (J = 0 when it is zero),
+// clamped at 0, for every remaining lifetime E, renew_delay and random_early_renew (whole seconds).
+#[kani::proof]
+#[kani::stub(std::hash::RandomState::new, rs_stub)]
+#[kani::stub(alloc::fmt::format, crate::verif_env::fmt_stub)]
+#[kani::unwind(2)]
+fn c06_renew_in_window() {
+    renew_in_window(kani::any(), kani::any());
+}
+#[kani::proof]
+#[kani::stub(std::hash::RandomState::new, rs_stub)]
+#[kani::stub(alloc::fmt::format, crate::verif_env::fmt_stub)]
+#[kani::unwind(2)]
+fn c06_renew_in_window_32bit() {
+    let rd: u32 = kani::any();
+    let rer: u32 = kani::any();
+    renew_in_window(rd as u64, rer as u64);
+}
+fn renew_in_window(rd: u64, rer: u64) {
+    let (days, secs, e_secs) = any_diff();
+    put_cert(days, secs, &[]);
+    let mut cert = mk_cert(vec![]);
+    cert.renew_delay = Duration::from_secs(rd);
+    cert.random_early_renew = Duration::from_secs(rer);
+    let x = block_on(crate::storage::get_certificate(&cert.file_manager)).unwrap();
+    let r = cert.renew_in(&x);
+    match &r {
+        Ok(d) => {
+            let base: u128 = if e_secs > rd as u128 { e_secs - rd as u128 } else { 0 };
+            let got = d.as_secs() as u128;
+            assert!(got <= base, "C06: renewal scheduled later than notAfter - renew_delay");
+            if rer == 0 {
+                assert!(got == base && d.subsec_nanos() == 0, "C06: without random_early_renew the renewal time must be exactly notAfter - renew_delay");
+            } else {
+                assert!(base - got <= rer as u128, "C06: renewal scheduled earlier than notAfter - renew_delay - random_early_renew");
+                assert!(got == 0 || base - got < rer as u128 || (base - got == rer as u128 && d.subsec_nanos() > 0), "C06: early-renew jitter must be < random_early_renew");
+            }
+        }
+        Err(_) => assert!(false, "C06: renew_in failed"),
+    }
+    core::mem::forget(r);
+    core::mem::forget(x);
+    core::mem::forget(cert);
+}
+
+// schedule_renewal with no identifier to compare (the HashSet<String> comparison of
+// has_missing_identifiers exceeded 20 GB in the solver for even one configured name -- outside):
+// immediate (ZERO) iff a file is missing, otherwise exactly notAfter - renew_delay; a certificate file
+// that cannot be read is an error, not an immediate renewal.
+#[kani::proof]
+#[kani::stub(std::hash::RandomState::new, rs_stub)]
+#[kani::stub(alloc::fmt::format, crate::verif_env::fmt_stub)]
+#[kani::unwind(2)]
+fn c06_schedule_files_and_time() {
+    let (days, secs, e_secs) = any_diff();
+    put_cert(days, secs, &[]);
+    let exist: bool = kani::any();
+    let unreadable: bool = kani::any();
+    env().files_exist = exist;
+    env().cert_unreadable = unreadable;
+    let rd: u32 = kani::any();
+    let mut cert = mk_cert(vec![]);
+    cert.renew_delay = Duration::from_secs(rd as u64);
+    let r = block_on(cert.schedule_renewal());
+    match &r {
+        Ok(d) => {
+            if !exist {
+                assert!(d.is_zero(), "C06: a missing certificate or key file must trigger an immediate request");
+            } else {
+                assert!(!unreadable, "C06: an unreadable certificate was scheduled as if it had been read");
+                let base: u128 = if e_secs > rd as u128 { e_secs - rd as u128 } else { 0 };
+                assert!(d.as_secs() as u128 == base && d.subsec_nanos() == 0, "C06: renewal must be scheduled exactly at notAfter - renew_delay");
+            }
+        }
+        Err(_) => assert!(exist && unreadable, "C06: schedule_renewal failed on a readable certificate"),
+    }
+    core::mem::forget(r);
+    core::mem::forget(cert);
+}
+
+#[kani::proof]
+#[kani::stub(std::hash::RandomState::new, rs_stub)]
+#[kani::stub(alloc::fmt::format, crate::verif_env::fmt_stub)]
+#[kani::unwind(2)]
+fn c06_witness() {
+    let (days, secs, _e) = any_diff();
+    put_cert(days, secs, &[]);
+    env().files_exist = kani::any();
+    let mut cert = mk_cert(vec![]);
+    cert.renew_delay = Duration::from_secs(10);
+    cert.random_early_renew = Duration::from_secs(5);
+    let r = block_on(cert.schedule_renewal());
+    kani::cover!(matches!(&r, Ok(d) if d.is_zero()), "immediate request reachable");
+    kani::cover!(matches!(&r, Ok(d) if d.as_secs() > 1000), "deferred renewal reachable");
+    core::mem::forget(r);
+    core::mem::forget(cert);
+}
